@@ -504,3 +504,127 @@ pub enum LimitedDataReadError {
     LargeObject(String),
     Read(io::Error),
 }
+
+
+//============ Kani harnesses (verification only) ============================
+//
+// Compiled only by `cargo kani` (which sets `cfg(kani)`); add-only.
+
+#[cfg(kani)]
+mod kani_verif {
+    use super::*;
+
+    /// An inner reader that claims to have read an arbitrary number of
+    /// bytes (`Some(n)`) or fails (`None`).
+    struct AnyRead {
+        ret: Option<usize>,
+    }
+
+    impl io::Read for AnyRead {
+        fn read(&mut self, _buf: &mut [u8]) -> Result<usize, io::Error> {
+            match self.ret {
+                Some(n) => Ok(n),
+                None => Err(io::Error::from(io::ErrorKind::TimedOut)),
+            }
+        }
+    }
+
+    /// A URI that renders as the empty string.
+    struct NoUri;
+
+    impl Display for NoUri {
+        fn fmt(&self, _f: &mut std::fmt::Formatter) -> std::fmt::Result {
+            Ok(())
+        }
+    }
+
+    /// C38: one call of the real `LimitedDataRead::read` for every limit
+    /// state and every length reported by the inner reader.
+    ///
+    /// `Ok(n)` iff `left` is `None` or `n <= left`; then `left' = left - n`;
+    /// otherwise `Err`, `left' = Some(0)` and the stored error is
+    /// `LargeObject`.
+    #[kani::proof]
+    fn limited_read_exact() {
+        let left: Option<u64> = kani::any();
+        let n: usize = kani::any();
+        let uri = NoUri;
+        let mut r = LimitedDataRead::new(AnyRead { ret: Some(n) }, &uri, left);
+        let mut buf = [0u8; 1];
+        let res = io::Read::read(&mut r, &mut buf);
+        let accept = match left {
+            None => true,
+            Some(l) => (n as u128) <= (l as u128),
+        };
+        assert!(res.is_ok() == accept);
+        match res {
+            Ok(m) => {
+                assert!(m == n);
+                assert!(r.err.is_none());
+                match left {
+                    None => assert!(r.left.is_none()),
+                    Some(l) => assert!(r.left == Some(l - (n as u64))),
+                }
+            }
+            Err(_) => {
+                assert!(r.left == Some(0));
+                assert!(
+                    matches!(r.err, Some(LimitedDataReadError::LargeObject(_)))
+                );
+            }
+        }
+        kani::cover!(left.is_none() && n > 0);
+        kani::cover!(left.is_some() && accept && n > 0);
+        kani::cover!(left == Some(n as u64) && n > 0);
+        kani::cover!(left.is_some() && !accept);
+        kani::cover!(left == Some(0) && n == 0);
+    }
+
+    /// C38: an error of the inner reader is passed on as an error, is
+    /// stored as `Read` and leaves the remaining budget unchanged.
+    #[kani::proof]
+    fn limited_read_inner_error() {
+        let left: Option<u64> = kani::any();
+        let uri = NoUri;
+        let mut r = LimitedDataRead::new(AnyRead { ret: None }, &uri, left);
+        let mut buf = [0u8; 1];
+        let res = io::Read::read(&mut r, &mut buf);
+        assert!(res.is_err());
+        assert!(r.left == left);
+        assert!(matches!(r.err, Some(LimitedDataReadError::Read(_))));
+        kani::cover!(left.is_none());
+        kani::cover!(left.is_some());
+    }
+
+    /// C38: two consecutive reads under a limit `l`: both are accepted
+    /// iff the sum of the lengths is at most `l` (so exactly `l` bytes are
+    /// accepted and `l + 1` are not), and once a read was refused nothing
+    /// but an empty read is accepted any more (the error is sticky).
+    #[kani::proof]
+    fn limited_read_two_reads_total() {
+        let l: u64 = kani::any();
+        let n1: usize = kani::any();
+        let n2: usize = kani::any();
+        let uri = NoUri;
+        let mut r = LimitedDataRead::new(
+            AnyRead { ret: Some(n1) }, &uri, Some(l)
+        );
+        let mut buf = [0u8; 1];
+        let res1 = io::Read::read(&mut r, &mut buf);
+        r.reader.ret = Some(n2);
+        let res2 = io::Read::read(&mut r, &mut buf);
+        let total = (n1 as u128) + (n2 as u128);
+        assert!((res1.is_ok() && res2.is_ok()) == (total <= l as u128));
+        if res1.is_err() {
+            assert!(res2.is_ok() == (n2 == 0));
+            assert!(r.left == Some(0));
+        }
+        if res1.is_ok() && res2.is_ok() {
+            assert!(r.left == Some(l - (total as u64)));
+        }
+        kani::cover!(res1.is_ok() && res2.is_ok() && total == l as u128 && n1 > 0 && n2 > 0);
+        kani::cover!(res1.is_ok() && res2.is_err());
+        kani::cover!(res1.is_err() && res2.is_err());
+        kani::cover!(res1.is_err() && res2.is_ok());
+    }
+}
